@@ -9,6 +9,8 @@
     two `_Ipv6UnsupportedError` try blocks, and the second argument of each of the four `inet_ntop` calls of
     decode_address (BOTH endianness branches: reversed / swapped on little-endian only);
   * `cfg_tmap_good`, `C11_kind_*` — both kind tables;
+  * `cfg_lookup_good` — process_inet / process_unix subscript the shared dict `inodes` only under `inode in inodes`, and
+    the dict is created as a `dict` / `defaultdict(list)` (seeded round 5: ONE dict goes through all the tables of a query);
   * `cfg_shapes_good` — the statement lists of every transcribed function (decode_address, get_proc_inodes,
     get_all_inodes, process_inet, process_unix, retrieve, the `readlink` wrapper, `_check_conn_kind` and its call sites).
   The host's endianness is *not* part of `Cfg.Good`: every theorem below holds for both, and the differential run
@@ -19,6 +21,7 @@ import PsutilModel.Proofs.C11Scan
 import PsutilModel.Proofs.C11Count
 import PsutilModel.Proofs.C11NoV6
 import PsutilModel.Proofs.C11Consist
+import PsutilModel.Proofs.C11Shared
 import PsutilModel.Model.C11Gen
 set_option linter.unusedSimpArgs false
 namespace Psutil.C11
@@ -1191,6 +1194,196 @@ theorem C11_sys_proc_shared_inet_counterexample (le : Bool) : ¬ SysProcConsiste
   subst hx'
   revert hr2
   decide
+
+/-! ## Seeded round 5: ONE inode dict goes through all the tables of a query
+
+  `retrieve` hands the same mutable dict to every `process_inet` / `process_unix` call of `tmap[kind]`; the kernel prints
+  the same inode number in different tables (0 for every socket without a `struct socket`: TIME_WAIT / SYN_RECV lines
+  of net/tcp{,6} AND not yet accepted connections in net/unix). `World.WF` has no clause about inode numbers, so every
+  theorem above already quantifies over such tables — but about functions that only READ the dict. The functions the
+  driver runs (`netConnectionsES`) thread the dict through every line of every table, with the lookups as the translator
+  finds them in the source. -/
+
+/-- **cfg_lookup_good.** Translator obligation: `process_inet` and `process_unix` subscript `inodes` only under
+    `inode in inodes` (facts `inetLookup`, `unixLookup`), and `inodes` is created as `{}` / `defaultdict(list)` (facts
+    `allInodesInit`, `procInodesInit`). -/
+theorem cfg_lookup_good : cfg.LookupGood := by constructor <;> decide
+
+theorem cfgLE_lookup_good (le : Bool) : (cfgLE le).LookupGood :=
+  ⟨cfg_lookup_good.inet, cfg_lookup_good.unix, cfg_lookup_good.initKnown⟩
+
+/-- **C11_shared_map_frame.** For EVERY file system (any content of the five tables, any descriptor tables, any errno),
+    kind and caller: threading the dict through the tables changes nothing — each table sees the dict exactly as
+    `get_all_inodes` / `get_proc_inodes` built it, whatever the earlier tables looked up in it. Hence every theorem of
+    this file about `netConnectionsE` is a theorem about the function the driver runs. -/
+theorem C11_shared_map_frame (le : Bool) (fs : ProcFsE) (kind : String) (pid : Option Nat) :
+    netConnectionsES (cfgLE le) fs kind pid = netConnectionsE (cfgLE le) fs kind pid :=
+  netConnectionsES_eq (cfgLE le) (cfgLE_lookup_good le) fs kind pid
+
+/-- the full statement over the shared dict, for a configuration `c` of the lookups -/
+def SharedMapFull (c : Cfg) : Prop :=
+  ∀ (le : Bool) (w : WorldE), w.view.WF → w.Inspectable → ∀ kind ∈ kinds,
+    ∃ rows, netConnectionsES { c with littleEndian := le } (renderWorldE le w) kind none = .ok rows
+      ∧ Accepts (expects w.view ⟨kind, none⟩) rows
+
+/-- **C11_shared_map.** System-wide form over the shared dict: for EVERY well-formed world — sockets of the same table
+    or of DIFFERENT tables may carry the same inode number, held or not —, either endianness, each of the 11 kinds:
+    the promised rows. -/
+theorem C11_shared_map : SharedMapFull cfg := by
+  intro le w hw hi kind hk
+  have h := C11_scan_never_fails le w hw hi kind hk
+  rw [← C11_shared_map_frame] at h
+  exact h
+
+/-- the per-process form over the shared dict (there the dict IS a `defaultdict`: `get_proc_inodes`' own) -/
+theorem C11_shared_map_process (le : Bool) (w : WorldE) (hw : w.view.WF) (hn : (w.procs.map (·.1)).Nodup)
+    (kind : String) (hk : kind ∈ kinds) (p : Nat) (fds : List (Nat × TargetE))
+    (hl : w.procs.lookup (p + 1) = some (.ok fds)) (hf : FdsInspectable fds) (hd : deniedIn fds = false) :
+    ∃ rows, netConnectionsES (cfgLE le) (renderWorldE le w) kind (some (p + 1)) = .ok rows
+      ∧ Accepts (expects w.view ⟨kind, some (p + 1)⟩) rows := by
+  rw [C11_shared_map_frame]
+  exact C11_scan_process le w hw hn kind hk p fds hl hf hd
+
+/-- **C11_shared_inode_no_holder.** The clause "a socket with no visible holder has pid None and fd -1" over the shared
+    dict: a requested socket nobody visibly holds is returned with `pid None, fd -1` — whatever OTHER sockets, of its own
+    table or of a table read before it, are printed with the same inode number (there is no hypothesis about them). -/
+theorem C11_shared_inode_no_holder (le : Bool) (w : WorldE) (hw : w.view.WF) (hi : w.Inspectable)
+    (kind : String) (hk : kind ∈ kinds) (s : Sock) (hs : s ∈ w.socks)
+    (hsel : kindSelects kind s.fam s.typ = true) (hh : holders w.view s.inode = []) :
+    ∃ rows, netConnectionsES (cfgLE le) (renderWorldE le w) kind none = .ok rows
+      ∧ rowOf s (none, -1) ∈ rows := by
+  obtain ⟨rows, h1, h2⟩ := C11_shared_map le w hw hi kind hk
+  refine ⟨rows, h1, ?_⟩
+  have hs' : s ∈ w.view.socks := hs
+  have hO : owners w.view ⟨kind, none⟩ s.inode = [(none, -1)] := by simp [owners, hh]
+  have he : (⟨baseRow s, [(none, -1)], s.fam == .unix⟩ : Expect) ∈ expects w.view ⟨kind, none⟩ := by
+    rw [mem_expects]; exact ⟨s, hs', hsel, by rw [expectOf_eq, hO]; simp⟩
+  have := h2.covered _ he
+  by_cases hu : s.fam = .unix
+  · have hb : (s.fam == Fam.unix) = true := by simpa using hu
+    simp only [hb, if_true] at this
+    exact this (none, -1) (by simp)
+  · have hb : (s.fam == Fam.unix) = false := by simpa using hu
+    simp only [hb, Bool.false_eq_true, if_false] at this
+    obtain ⟨o, ho, hr⟩ := this
+    simp at ho; subst ho; exact hr
+
+/-- the exact rows of the system-wide form over the shared dict (`C11_rows_which` for the function the driver runs) -/
+theorem C11_shared_map_rows (le : Bool) (w : WorldE) (hw : w.view.WF) (hi : w.Inspectable)
+    (kind : String) (hk : kind ∈ kinds) :
+    ∃ rows, netConnectionsES (cfgLE le) (renderWorldE le w) kind none = .ok rows
+      ∧ RowsAre w.view ⟨kind, none⟩ rows := by
+  obtain ⟨rows, h1, _, h3⟩ :=
+    netConnections_system_rows (cfgLE le) (cfgLE_good le) (cfgLE_tmap_good le) w.view hw kind hk
+  obtain ⟨e1, e2⟩ := erase_renderWorldE (cfgLE le) (cfgLE_good le) le w hi
+  refine ⟨rows, ?_, h3⟩
+  rw [C11_shared_map_frame, netConnectionsE_system (cfgLE le) _ kind e2, e1]
+  exact h1
+
+theorem kindSelects_all (f : Fam) (typ : Nat) :
+    kindSelects "all" f typ = (kindSelects "inet" f typ || kindSelects "unix" f typ) := by
+  cases f <;> simp [kindSelects] <;> decide
+
+/-- **C11_all_is_union.** "`all` = the sum of all the possible families and protocols": over the shared dict, for every
+    inspectable well-formed world (any inode numbers shared between tables), the rows of kind `all` are exactly the rows
+    of kind `inet` together with the rows of kind `unix` — the tables read first take nothing away from the later ones. -/
+theorem C11_all_is_union (le : Bool) (w : WorldE) (hw : w.view.WF) (hi : w.Inspectable) :
+    ∃ ra ri ru, netConnectionsES (cfgLE le) (renderWorldE le w) "all" none = .ok ra
+      ∧ netConnectionsES (cfgLE le) (renderWorldE le w) "inet" none = .ok ri
+      ∧ netConnectionsES (cfgLE le) (renderWorldE le w) "unix" none = .ok ru
+      ∧ ∀ x, x ∈ ra ↔ x ∈ ri ∨ x ∈ ru := by
+  obtain ⟨ra, ha, hra⟩ := C11_shared_map_rows le w hw hi "all" (by decide)
+  obtain ⟨ri, hi', hri⟩ := C11_shared_map_rows le w hw hi "inet" (by decide)
+  obtain ⟨ru, hu, hru⟩ := C11_shared_map_rows le w hw hi "unix" (by decide)
+  refine ⟨ra, ri, ru, ha, hi', hu, fun x => ?_⟩
+  rw [hra x, hri x, hru x]
+  constructor
+  · rintro ⟨s, hs, hsel, hx⟩
+    have hsel' : kindSelects "all" s.fam s.typ = true := hsel
+    rw [kindSelects_all, Bool.or_eq_true] at hsel'
+    rcases hsel' with h | h
+    · exact Or.inl ⟨s, hs, h, hx⟩
+    · exact Or.inr ⟨s, hs, h, hx⟩
+  · rintro (⟨s, hs, hsel, hx⟩ | ⟨s, hs, hsel, hx⟩)
+    · exact ⟨s, hs, by show kindSelects "all" s.fam s.typ = true; rw [kindSelects_all]; simp [show kindSelects "inet" s.fam s.typ = true from hsel], hx⟩
+    · exact ⟨s, hs, by show kindSelects "all" s.fam s.typ = true; rw [kindSelects_all]; simp [show kindSelects "unix" s.fam s.typ = true from hsel], hx⟩
+
+/-! ### the witness: a TIME_WAIT TCP socket and a not yet accepted UNIX connection, both printed with inode 0 -/
+
+/-- a UNIX stream connection still queued in the backlog of the listener bound to `/run/srv.sock`: the kernel prints it
+    with the listener's name and inode 0 (it has no `struct socket` before `accept()`), nobody holds it -/
+def sockPending : Sock :=
+  { fam := .unix, typ := 1, lip := [], lport := 0, rip := [], rport := 0, state := 3,
+    path := some (lit "/run/srv.sock"), inode := 0, txq := 0, rxq := 0, uid := 0, refcnt := 2, flags := 0 }
+
+/-- net/tcp shows a TIME_WAIT socket (inode 0), net/unix the pending connection (inode 0); no process -/
+def worldPending : WorldE := { socks := [sockTW 40000, sockPending], procs := [], v6 := true }
+
+theorem worldPending_ok : worldPending.view.WF ∧ worldPending.Inspectable :=
+  ⟨(C11_wf_iff _).mp (by decide), fun p hp => by cases hp⟩
+
+/-- the code as it is: both sockets are reported, each with `pid None, fd -1` (instances of
+    `C11_shared_inode_no_holder`; replayed on the real code: corpus world 7) -/
+theorem C11_pending_unix_reported (le : Bool) :
+    ∃ rows, netConnectionsES (cfgLE le) (renderWorldE le worldPending) "all" none = .ok rows
+      ∧ rowOf sockPending (none, -1) ∈ rows ∧ rowOf (sockTW 40000) (none, -1) ∈ rows := by
+  obtain ⟨rows, h1, h2⟩ := C11_shared_inode_no_holder le worldPending worldPending_ok.1 worldPending_ok.2 "all"
+    (by decide) sockPending (by decide) (by decide) (by decide)
+  obtain ⟨rows', h1', h2'⟩ := C11_shared_inode_no_holder le worldPending worldPending_ok.1 worldPending_ok.2 "all"
+    (by decide) (sockTW 40000) (by decide) (by decide) (by decide)
+  rw [h1] at h1'
+  have := Except.ok.inj h1'
+  subst this
+  exact ⟨rows, h1, h2, h2'⟩
+
+/-- a configuration in which `get_all_inodes` builds a `defaultdict(list)` and `process_inet` subscripts it without the
+    membership test (`holders = inodes[inode]; pid, fd = holders[0] if holders else (None, -1)`): the shape of seeded
+    change C11-4 — each of the two edits is harmless alone -/
+def cfgInsertingLookup : Cfg := { cfg with allInodesDefault := true, inetLookup := .subscript }
+
+/-- the same effect through `inodes.setdefault(inode, [])` on the plain dict -/
+def cfgSetdefaultLookup : Cfg := { cfg with inetLookup := .setdefault }
+
+/-- a lookup that inserts, on `worldPending`: the TIME_WAIT line of net/tcp leaves `'0': []` in the dict, net/unix is
+    read after it, `'0' in inodes` now holds, `pairs = []`: the pending connection yields NO row -/
+theorem pending_rows_inserting (c : Cfg) (hc : c = cfgInsertingLookup ∨ c = cfgSetdefaultLookup) :
+    (netConnectionsES { c with littleEndian := true } (renderWorldE true worldPending) "all" none).toOption
+      = some [rowOf (sockTW 40000) (none, -1)] := by
+  rcases hc with rfl | rfl <;> decide +kernel
+
+theorem not_sharedMapFull_of (c : Cfg)
+    (hr : (netConnectionsES { c with littleEndian := true } (renderWorldE true worldPending) "all" none).toOption
+      = some [rowOf (sockTW 40000) (none, -1)]) : ¬ SharedMapFull c := by
+  intro h
+  obtain ⟨rows, h1, h2⟩ := h true worldPending worldPending_ok.1 worldPending_ok.2 "all" (by decide)
+  rw [h1] at hr
+  have hrows : rows = [rowOf (sockTW 40000) (none, -1)] := by simpa [Except.toOption] using hr
+  subst hrows
+  have he : (⟨baseRow sockPending, [(none, -1)], true⟩ : Expect) ∈ expects worldPending.view ⟨"all", none⟩ := by
+    decide
+  have hc := h2.covered _ he
+  simp only [if_true] at hc
+  have := hc (none, -1) (by simp)
+  revert this
+  decide
+
+/-- **C11_shared_map_counterexample.** With a lookup in `process_inet` that creates the key it misses
+    (`defaultdict` + bare subscript) the full statement is false: `net_connections('all')` on `worldPending` returns the
+    TIME_WAIT row only — the UNIX connection, which `net_connections('unix')` reports, is gone. -/
+theorem C11_shared_map_counterexample : ¬ SharedMapFull cfgInsertingLookup :=
+  not_sharedMapFull_of _ (pending_rows_inserting _ (Or.inl rfl))
+
+/-- …and the same for `inodes.setdefault(inode, [])` on the plain dict -/
+theorem C11_shared_map_setdefault_counterexample : ¬ SharedMapFull cfgSetdefaultLookup :=
+  not_sharedMapFull_of _ (pending_rows_inserting _ (Or.inr rfl))
+
+/-- each of the two edits of the seeded change alone is harmless: a `defaultdict` with guarded lookups is covered by
+    `C11_shared_map_frame` (which does not look at `allInodesDefault`); a bare subscript on the plain dict raises
+    KeyError for every holder-less socket -/
+theorem C11_bare_subscript_plain_dict_KeyError :
+    (netConnectionsES { cfg with inetLookup := .subscript, littleEndian := true } (renderWorldE true worldPending) "all" none).toOption
+      = none := by
+  decide +kernel
 
 /-! ## The hypotheses are satisfiable -/
 
